@@ -41,7 +41,7 @@ SpanCase ==
   \E c \in Classes, r \in {"baseline", "reporting"}, el \in BOOLEAN, ng \in BOOLEAN, st \in Starts, S \in Spans :
      \E k1 \in Counts(S), k2 \in Counts(S), h1 \in {"blockMid", "spread"}, h2 \in {"blockMid", "blockEarly", "spread"}, ld \in {0, 6}, tr \in {0, 5} :
        /\ (ld + tr > 0 => r = "baseline" /\ c = "daily" /\ h1 = "blockMid" /\ h2 = "blockMid" /\ el /\ ~ng)
-       /\ (r = "reporting" => k1 = 0 /\ ~ng /\ el)
+       /\ (r = "reporting" => k1 \in {0, KCrit(S) + 6} /\ ~ng /\ el)       \* usage gaps of a reporting period must not matter
        /\ (c = "billing" => k1 = 0)            \* billing usage is given per period, its gaps are Resample's (C08) question
        /\ (c = "billing" => st = <<2019, 1, 1>> /\ h2 # "blockEarly" /\ (S \in {329, 330, 364, 365} \/ (S \in {328, 340} /\ k2 = 0)))   \* the last calendar month is a regular period (>= 25 days), or - once - an off-cycle one   \* billing spans are realised as whole calendar months from 1 January
        /\ (ng => ~el)
